@@ -376,6 +376,11 @@ def nested(rep, nat, APPLY, action, tier):
             if len(mp.items) != 2: problems.append("a failing non-constructive action changed the set of attributes")
             cur_items = core.seq_store(d(d(d(stored["seq"]).f[1]).f[0]).f[0])[0]
             if len(cur_items) != n_items: problems.append("a failing non-constructive action changed the number of items")
+        if hits_seq and want[0] == "err" and not got_ok:
+            # reference model: only the NEXT item is created; an index past it is an error that leaves the sequence as it was
+            cur_items = core.seq_store(d(d(d(stored["seq"]).f[1]).f[0]).f[0])[0]
+            if len(cur_items) != n_items: problems.append("the failing action left %d items in the addressed sequence, it held %d" % (len(cur_items), n_items))
+            box["stray"] = len(cur_items) != n_items
         if want[0] == "ok" and got_ok:
             cur_items = core.seq_store(d(d(d(stored["seq"]).f[1]).f[0]).f[0])[0]
             if len(cur_items) != n_items + (1 if want[2] else 0): problems.append("%d items afterwards, expected %d" % (len(cur_items), n_items + (1 if want[2] else 0)))
@@ -414,7 +419,8 @@ def nested(rep, nat, APPLY, action, tier):
         want = box.get("want", ("?",))
         real_ok = real.startswith("OK")
         bad = (want[0] in ("err", "err_after_create") and real_ok) or (want[0] == "ok" and not real_ok)
-        if bad or (real_ok and want[0] == "ok" and ("items=%d" % (n_items + (1 if want[2] else 0))) not in real):
+        stray = (not real_ok) and want[0] == "err" and box.get("stray") and ("items=%d_" % n_items) not in real      # a failing action changed the number of items
+        if bad or stray or (real_ok and want[0] == "ok" and ("items=%d" % (n_items + (1 if want[2] else 0))) not in real):
             rep.violations.append(("nested attribute operation %s: %s; real: %s" % (action, box.get("problems"), real), rp))
             rep.obligation(name, "violated", {"native": real, "instance": words})
         else:
